@@ -501,7 +501,7 @@ func genNameAddr(t *rapid.T, allowStar bool) NameAddrSpec {
 				if i > 0 {
 					w.Write(genLWS1(t, "dsep"))
 				}
-				w.Write(genFrom(t, "dword", "abcdefBobAlice0123-_.!%*+'~", 1, 6))
+				w.Write(genFrom(t, "dword", "abcdefBobAlice0123-_.!%+'~", 1, 6))
 			}
 			n.Display = w.Bytes()
 			n.DispWS = genLWS(t, "dispws")
@@ -529,6 +529,26 @@ type HdrSpec struct {
 	Val     B `json:"val"`      // value text from first to last non-LWS byte (may hold folds)
 	TrailWS B `json:"trail_ws"` // LWS before the line end
 	EOL     B `json:"eol"`
+}
+
+// normalise moves leading/trailing LWS of Val into PostLWS/TrailWS so that
+// Val is exactly the text from the first to the last non-LWS byte.
+func (h *HdrSpec) normalise() {
+	v := []byte(h.Val)
+	i, j := 0, len(v)
+	for i < j && isLWSByte(v[i]) {
+		i++
+	}
+	for j > i && isLWSByte(v[j-1]) {
+		j--
+	}
+	if i > 0 {
+		h.PostLWS = append(append(B{}, h.PostLWS...), v[:i]...)
+	}
+	if j < len(v) {
+		h.TrailWS = append(append(B{}, v[j:]...), h.TrailWS...)
+	}
+	h.Val = append(B{}, v[i:j]...)
 }
 
 func (h HdrSpec) render(w *bytes.Buffer) {
@@ -678,6 +698,7 @@ func genHdr(t *rapid.T, typed bool) HdrSpec {
 	}
 	h.TrailWS = genLWS(t, "trailws")
 	h.EOL = genEOL(t, "eol")
+	h.normalise()
 	return h
 }
 
